@@ -3,6 +3,7 @@
 package qdb
 
 import (
+	"time"
 	"encoding/hex"
 	"fmt"
 	"os"
@@ -13,11 +14,16 @@ import (
 )
 
 // Native realisation of the crash model. The parent (the replay test) runs the workload in a child process (this
-// same test binary, ZZVERIF_C19_MODE=run) under `strace -e inject=<syscall>:signal=SIGKILL:when=<k>`: the child
-// dies on entering its k-th openat / write / unlinkat system call, i.e. at a real file-operation boundary. A second
-// child (ZZVERIF_C19_MODE=reopen) opens the directory and prints what it holds. The workload child journals
-// "S<i>" before and "D<i>" after every operation (in a file outside the database directory), so the parent knows
-// which operations may have taken effect and which syncs completed.
+// same test binary, ZZVERIF_C19_MODE=run) under gdb: a catchpoint on the openat / write / unlinkat system calls set
+// when the workload starts, `ignore <n>`, continue, kill - the child dies at its (n+1)-th entry to or return from
+// such a call, counted over all threads, i.e. at a real file-operation boundary. A second child
+// (ZZVERIF_C19_MODE=reopen) opens the directory and prints what it holds. The workload child journals "S<i>" before
+// and "D<i>" after every operation (in a file outside the database directory), so the parent knows which operations
+// may have taken effect and which syncs completed.
+
+//go:noinline
+func h_c19_mark() {}
+
 func h_c19_native(ops []h_op, opts *ExtraOpts, syncEach bool) {
 	mode := os.Getenv("ZZVERIF_C19_MODE")
 	dir := os.Getenv("ZZVERIF_C19_DIR")
@@ -29,6 +35,7 @@ func h_c19_native(ops []h_op, opts *ExtraOpts, syncEach bool) {
 	switch mode {
 	case "run":
 		j, _ := os.OpenFile(dir+"/journal", os.O_CREATE|os.O_WRONLY|os.O_APPEND, 0600)
+		h_c19_mark() // gdb arms the system-call catchpoint here
 		db := open()
 		for i, o := range ops {
 			fmt.Fprintf(j, "S%d\n", i)
@@ -75,8 +82,7 @@ func h_c19_native(ops []h_op, opts *ExtraOpts, syncEach bool) {
 	check := func(strace []string) (killed bool) {
 		d, _ := os.MkdirTemp("", "zzverif_c19_")
 		defer os.RemoveAll(d)
-		code, _ := child("run", d, strace)
-		killed = code != 0
+		child("run", d, strace)
 		// what the journal says
 		m := h_new_model(syncEach)
 		jb, _ := os.ReadFile(d + "/journal")
@@ -90,10 +96,14 @@ func h_c19_native(ops []h_op, opts *ExtraOpts, syncEach bool) {
 			}
 		}
 		clean := strings.Contains(journal, "DC\n")
+		killed = !clean
 		if clean {
 			m.synced()
 		}
 		code, out := child("reopen", d, nil)
+		if os.Getenv("ZZVERIF_C19_DEBUG") != "" {
+			fmt.Fprintf(os.Stderr, "[c19] strace=%v killed=%v journal=%q reopen-exit=%d out=%q\n", strace, killed, journal, code, out)
+		}
 		if code != 0 {
 			failures = append(failures, "C19.reopen.opens")
 			return
@@ -118,22 +128,25 @@ func h_c19_native(ops []h_op, opts *ExtraOpts, syncEach bool) {
 		return
 	}
 	check(nil) // no crash
-	if _, err := exec.LookPath("strace"); err == nil {
-		for _, sc := range []string{"openat", "write", "unlinkat"} {
-			for k := 1; k <= 40; k++ {
-				st := []string{"strace", "-f", "-qq", "-o", "/dev/null", "-e", "trace=" + sc, "-e", fmt.Sprintf("inject=%s:signal=SIGKILL:when=%d", sc, k)}
-				if !check(st) {
-					break // the child ran to the end: no further boundary of this kind
-				}
+	if _, err := exec.LookPath("gdb"); err == nil {
+		start := time.Now()
+		// every system call stops twice (entry, return); the state after a return equals the state at the next entry, so
+		// every second stop is enough
+		for n := 0; n < 400 && time.Since(start) < 20*time.Second; n += 2 {
+			gdb := []string{"gdb", "-q", "-batch", "-nx", "-ex", "set pagination off", "-ex", "set confirm off", "-ex", "handle SIGURG nostop noprint pass",
+				"-ex", "break github.com/piotrnar/gocoin/lib/others/qdb.h_c19_mark", "-ex", "run", "-ex", "catch syscall openat write unlinkat",
+				"-ex", fmt.Sprintf("ignore 2 %d", n), "-ex", "continue", "-ex", "kill", "--args"}
+			if !check(gdb) {
+				break // the child ran to the end: no further boundary
 			}
 		}
 	}
 	if len(failures) > 0 {
+		// any inconsistency after a crash of this workload realises the model's violation: it is reported under the
+		// replayed label when that is one of the reopen assertions
 		label := failures[0]
-		for _, f := range failures {
-			if f == want {
-				label = f
-			}
+		if strings.HasPrefix(want, "C19.reopen.") {
+			label = want
 		}
 		zzverif.Assert(label, false)
 	}
